@@ -67,34 +67,38 @@ struct SPxOut { static void verif_debug_sink() {} };
 #define debug(...) verif_debug_sink()
 #define throw VERIF_THROW() (void)
 
-/* ids: DataKey {info, idx} (datakey.h); SPxId: info < 0 row id, info > 0 column id (spxid.h, conformance-checked).
- * idx is the KEY of the row/column, which stays fixed while rows/columns are added or removed. */
-struct DataKey { int info; int idx; };
+/* ids.  Real (spxid.h, datakey.h): SPxId / SPxRowId / SPxColId derive from DataKey {info, idx}; info < 0 marks a row id,
+ * info > 0 a column id, idx is the KEY of the row/column, which stays fixed while rows/columns are added or removed
+ * (conformance-checked).  The hooks treat ids as opaque tokens (isSPxRowId/isSPxColId, conversion, assignment, has(),
+ * vector()), so the stub packs both fields into ONE int:  code = -(key+1) for a row id, +(key+1) for a column id,
+ * 0 = invalid.  (A two-field struct laid over the wrapper's int array makes the SAT problem explode.) */
 struct SPxId;
-struct SPxRowId : DataKey { SPxRowId() {} explicit SPxRowId(const SPxId& p_key); };
-struct SPxColId : DataKey { SPxColId() {} explicit SPxColId(const SPxId& p_key); };
-struct SPxId : DataKey
+struct SPxRowId { int code; SPxRowId() {} explicit SPxRowId(const SPxId& p_key); };
+struct SPxColId { int code; SPxColId() {} explicit SPxColId(const SPxId& p_key); };
+struct SPxId
 {
+   int code;
    SPxId() {}
-   SPxId& operator=(const SPxRowId& rid) { info = -1; idx = rid.idx; return *this; }   /* ROW_ID = -1 */
-   SPxId& operator=(const SPxColId& cid) { info = 1; idx = cid.idx; return *this; }    /* COL_ID = 1 */
-   bool isSPxRowId() const { return info < 0; }
-   bool isSPxColId() const { return info > 0; }
+   SPxId& operator=(const SPxRowId& rid) { code = rid.code; return *this; }
+   SPxId& operator=(const SPxColId& cid) { code = cid.code; return *this; }
+   bool isSPxRowId() const { return code < 0; }
+   bool isSPxColId() const { return code > 0; }
 };
-inline SPxRowId::SPxRowId(const SPxId& p_key) { info = -1; idx = p_key.idx; }
-inline SPxColId::SPxColId(const SPxId& p_key) { info = 1; idx = p_key.idx; }
+/* real: asserts that the id has the right type and copies the key */
+inline SPxRowId::SPxRowId(const SPxId& p_key) { code = p_key.code; }
+inline SPxColId::SPxColId(const SPxId& p_key) { code = p_key.code; }
 
 template <class T> struct SVectorBase { int unused; };
 
-/* The LP after the modification.  rowKey[i] / colKey[i]: key of the row / column at position i.
- * goneRow / goneCol: the key of the row / column the LP has just removed (removedRow / removedCol), -1 otherwise.
+/* The LP after the modification.  rowKey[i] / colKey[i]: id code of the row / column at position i.
+ * goneRow / goneCol: the id code of the row / column the LP has just removed (removedRow / removedCol), 0 otherwise.
  * has(id): the id names a row/column of the LP.  TYPE INVARIANT (listed under "trusted"): every id the basis stores
  * named a row/column before the modification, so it still does unless it is the removed one. */
 template <class T> struct SPxLPBase
 {
    typedef T R;
    VectorBase<T> left, right, low, up, objc;
-   int* rowKey; int* colKey; int goneRow; int goneCol;
+   int* rowKey; int* colKey; int goneRow; int goneCol;    /* all in id-code form */
    int nRows() const { return left.dimen; }
    int nCols() const { return low.dimen; }
    const T& lhs(int i) const { return (*(VectorBase<T>*)&left)[i]; }
@@ -105,15 +109,15 @@ template <class T> struct SPxLPBase
    SPxRowId rId(int n) const
    {
       __CPROVER_assert(0 <= n && n < left.dimen, "rId: row number in range");
-      SPxRowId id; id.info = -1; id.idx = rowKey[n]; return id;
+      SPxRowId id; id.code = rowKey[n]; return id;
    }
    SPxColId cId(int n) const
    {
       __CPROVER_assert(0 <= n && n < low.dimen, "cId: column number in range");
-      SPxColId id; id.info = 1; id.idx = colKey[n]; return id;
+      SPxColId id; id.code = colKey[n]; return id;
    }
-   bool has(const SPxRowId& id) const { return id.idx != goneRow; }
-   bool has(const SPxColId& id) const { return id.idx != goneCol; }
+   bool has(const SPxRowId& id) const { return id.code != goneRow; }
+   bool has(const SPxColId& id) const { return id.code != goneCol; }
 };
 
 template <class T> struct SPxSolverBase;
